@@ -21,7 +21,29 @@ METAS = [
     {'stats': {'insertions': 1, 'deletions': 2}, 'x\x7f': ' \x00'},
     {'nested': {'a': {'b': {'c': [1, [2, [3, {}]]]}}}},
     {'crlf': 'a\r\nb', 'unicode': 'あ'},
+    {'reviewers': [{'name': 'Alice', 'email': 'alice@example.com'}, {'z': 1, 'a': [{'y': 0, 'b': {}}]}]},
+    {'b': [[{'d': 1, 'c': 2}]], 'a': {'z': {'y': 1, 'x': 2}}},
 ]
+
+
+def rand_json(rng, depth=0):
+    """Random JSON value: nested objects/arrays, keys inserted in random order, adversarial strings."""
+    r = rng.random()
+    if depth >= 3 or r < 0.35:
+        return rng.choice([0, 1, -7, 999999999, True, False, None, '', 'x', 'é', 'a\nb', '\t"\\', '\x7f', '\u2028',
+                           '\U0001d11e', '#.meta:', ' '])
+    if r < 0.65:
+        return [rand_json(rng, depth + 1) for _ in range(rng.randint(0, 3))]
+    keys = rng.sample(['name', 'email', 'z', 'a', 'B', 'é', 'a b', '', '10', '9', 'path', 'stats'], rng.randint(0, 4))
+    return {k: rand_json(rng, depth + 1) for k in keys}
+
+
+def rand_meta(rng):
+    while True:
+        v = rand_json(rng, 0)
+        if isinstance(v, dict) and v:
+            return v
+
 
 DIFFS = [
     b'x', b'--- a\n+++ b\n@@ -1 +1 @@\n-a\n+b', b'a\r\nb', b'#..file:', b'\xff\xfe', b'a\n',
@@ -85,7 +107,7 @@ def conc_call(op, e, v, rng, encs=None, invalid=False, simple=False):
             kw['line_endings'] = rng.choice([None, None, 'unix', 'dos'])
             kw['mimetype'] = rng.choice([None, None, 'text/plain', 'text/markdown'])
     elif op == 'meta':
-        kw = {'metadata': METAS[0] if simple or v == 0 else rng.choice(METAS)}
+        kw = {'metadata': METAS[0] if simple or v == 0 else (rand_meta(rng) if rng.random() < 0.35 else rng.choice(METAS))}
         if enc is not None:
             kw['encoding'] = enc
         if v and rng.random() < 0.2:
